@@ -108,6 +108,34 @@ class Spec:
                 ops.append(Op("ctor7list", v, fun(lambda t, p=p, w=w: tm(list(p) + list(quat(w))))))
                 ops.append(Op("ctor7arr", v, fun(lambda t, p=p, w=w: tm(np.array(list(p) + list(quat(w)))))))
                 ops.append(Op("ctorpair", v, fun(lambda t, v=v: tm([list(v[:3]), list(v[3:])]))))
+        # the caller's input array is the caller's: constructing from it and then refilling it (or building a second transform
+        # from it and writing through that one) must leave the transform untouched.  One transition each, because a
+        # snapshot would sever exactly the sharing this looks for.
+        for p in POS:
+            for w in RV[2::5]:
+                v = list(p) + list(w)
+                for shape, nm in (((6,), "flat"), ((6, 1), "col")):
+                    def f_refill(t, v=v, shape=shape):
+                        buf = np.array(v, float).reshape(shape)
+                        r = tm(buf)
+                        buf[...] = np.array([9.0, -8.0, 7.0, 0.3, -0.2, 0.1]).reshape(shape)
+                        return r
+                    ops.append(Op("ctor6_%s_then_caller_refills_array" % nm, v, fun(f_refill)))
+
+                    def f_twin(t, v=v, shape=shape):
+                        buf = np.array(v, float).reshape(shape)
+                        r, other = tm(buf), tm(buf)
+                        other[4] = 0.7
+                        other.set(0, -3.0)
+                        return r
+                    ops.append(Op("ctor6_%s_twice_then_write_to_twin" % nm, v, fun(f_twin)))
+
+                def f_m4(t, v=v):
+                    M = se3.T_from_taa(v)
+                    r = tm(M)
+                    M[:3, :] = np.array([[0, -1, 0, 5.0], [1, 0, 0, 6.0], [0, 0, 1, 7.0]])
+                    return r
+                ops.append(Op("ctor4x4_then_caller_refills_array", v, fun(f_m4)))
         for w in RV:
             ops.append(Op("ctor3list", w, fun(lambda t, w=w: tm(list(w)))))
             ops.append(Op("ctor3arr", w, fun(lambda t, w=w: tm(np.array(w)))))
@@ -222,6 +250,12 @@ class Spec:
         c, d, pma = coherence(st)
         if c:
             bad.append({"clause": c, "observed": d, "tolerance": TOL, "quantities": {"pi_minus_angle": pma}})
+        if op.name.startswith("ctor6_") or op.name.startswith("ctor4x4_then"):
+            E = se3.T_from_taa(op.arg)
+            e = float(np.abs(st.TM - E).max()) if isinstance(getattr(st, "TM", None), np.ndarray) and st.TM.shape == (4, 4) else float("inf")
+            e2 = float(np.abs(np.asarray(st.TAA, float).reshape(-1) - np.array(op.arg, float)).max()) if np.size(st.TAA) == 6 else float("inf")
+            if not (max(e, e2) <= TOL * max(1.0, float(np.abs(np.array(op.arg[:3])).max()))):
+                bad.append({"clause": "follows_callers_array", "observed": [e, e2], "tolerance": TOL, "quantities": {"pi_minus_angle": pma}})
         if "recv" in obs and obs["recv"][0]:
             c2, d2, pma2 = obs["recv"]
             bad.append({"clause": "receiver_" + c2, "observed": d2, "tolerance": TOL,
